@@ -5,6 +5,8 @@ obligation of the properties that use the model function: a change of the Rust b
 generated definition and breaks the proof.
 -/
 import JubakoModel.Model.DirWriter
+import JubakoModel.Model.DirLayout
+import JubakoModel.Model.Order
 import JubakoModel.Generated.FuncsDir
 import JubakoModel.Lemmas.FuncsBytes
 import JubakoModel.Lemmas.Codec
@@ -89,5 +91,33 @@ theorem gen_vstoreTail (s : VStore) :
       simp only [hfun]
       rw [hf, endOffsets_dropLast]
       simp [writesBytes, leBytes, List.map_map, Function.comp_def, ofNat_mod_u8]
+
+/-! ### index tail -/
+
+/-- **The index tail of the model is the byte image of the writes of `Index::serialize_tail`
+    (`creator/directory_pack/mod.rs`) translated on every run**, with the field widths taken from the
+    struct definition and the type table of the source: store id, entry count, first entry (4 bytes
+    each), free data (4), index key (1), name as a p-string. -/
+theorem gen_indexTail (i : IndexInfo) (hfd : i.freeData.length = 4) (hn : i.name.length < 256) :
+    i.encode = writesBytes (Generated.indexTailWrites i.storeId i.count i.offset i.freeData i.key i.name) := by
+  have h1 : leBytes (leNat i.freeData) 4 = i.freeData := by rw [← hfd]; exact leBytes_leNat _
+  have h2 : leBytes (leNat i.name) i.name.length = i.name := leBytes_leNat _
+  have l1 : ∀ v, leBytes v 1 = [UInt8.ofNat v] := by intro v; simp [leBytes, ofNat_mod_u8]
+  simp only [IndexInfo.encode, Generated.indexTailWrites, writesBytes, List.nil_append, List.map_append, List.map_cons,
+    List.map_nil, List.flatten_append, List.flatten_cons, List.flatten_nil, h1, h2, l1, pstringEncode, List.append_nil]
+  simp
+
+/-! ### the creator's order on array values -/
+
+/-- **`writerArrCmp` is the body of the creator's `Array::cmp` (`creator/directory_pack/value.rs`)
+    translated on every run**: inline prefix bytes first, then the value id in its store, then the
+    total length (`Ordering.then` spelt as the nested `match` of the source). -/
+theorem gen_writerArrCmp (vs : VStore) (fixed : Nat) (a b : Bytes) :
+    writerArrCmp vs fixed a b =
+      Generated.writerArrayCmp (lexCmp (a.take fixed) (b.take fixed)) (vs.idOf (a.drop fixed)) (vs.idOf (b.drop fixed))
+        a.length b.length := by
+  unfold writerArrCmp Generated.writerArrayCmp
+  cases lexCmp (a.take fixed) (b.take fixed) <;> simp [Ordering.then] <;>
+    cases compare (vs.idOf (a.drop fixed)) (vs.idOf (b.drop fixed)) <;> simp [Ordering.then]
 
 end Jubako
